@@ -207,11 +207,26 @@ def exc_name(e):
     return 'Other:%s' % type(e).__name__
 
 
+class Budget(BaseException):
+    """more template loads than LOAD_BUDGET in one render: the case is skipped (deterministic
+    work bound; keeps endless recursions that also grow the match-template list affordable)"""
+
+
 def render_real(case, dirs, auto_reload):
     """outcome of loading the entry through a fresh TemplateLoader(dirs, auto_reload=…) and
-    rendering it with the case's data: ['ok', events] | ['err', class name]"""
+    rendering it with the case's data: ['ok', events] | ['err', class name] | ['skip', 'budget']"""
     from genshi.template import TemplateLoader, NewTextTemplate, MarkupTemplate
-    loader = TemplateLoader(list(dirs), auto_reload=auto_reload, max_cache_size=200)
+
+    class CountingLoader(TemplateLoader):
+        loads = 0
+
+        def load(self, *a, **kw):
+            self.loads += 1
+            if self.loads > LOAD_BUDGET:
+                raise Budget()
+            return TemplateLoader.load(self, *a, **kw)
+
+    loader = CountingLoader(list(dirs), auto_reload=auto_reload, max_cache_size=200)
     cls = NewTextTemplate if entry_kind(case) == 'text' else MarkupTemplate
     old = sys.getrecursionlimit()
     sys.setrecursionlimit(RECURSION_LIMIT)
@@ -220,13 +235,16 @@ def render_real(case, dirs, auto_reload):
             tmpl = loader.load(case['entry'], cls=cls)
             stream = tmpl.generate(**case['data'])
             return ['ok', canon_events(stream)]
+        except Budget:
+            return ['skip', 'budget']
         except Exception as e:  # noqa
             return ['err', exc_name(e)]
     finally:
         sys.setrecursionlimit(old)
 
 
-RECURSION_LIMIT = 700
+LOAD_BUDGET = 400
+RECURSION_LIMIT = 420
 
 
 def run_real(case, base):
@@ -391,7 +409,7 @@ class Diverged(Exception):
     pass
 
 
-SPEC_DEPTH = 40
+SPEC_DEPTH = 24
 
 
 def truthy(v):
@@ -684,8 +702,10 @@ class Gen(object):
             return rng.choice(MISSING)
         later = [n for n in cands if self.names.index(n) > self.names.index(self.here)]
         # cycles (a target at or before the current file) mostly under a loop over the shrinking tree
-        if later and rng.random() < (0.35 if self.guarded else 0.85):
+        if later and rng.random() < (0.35 if self.guarded else 0.93):
             return rng.choice(later)
+        if not later and not self.guarded and rng.random() < 0.7:
+            return rng.choice(MISSING)
         return rng.choice(cands)
 
     def include(self, depth, svars, lvars, zone, in_fb):
